@@ -29,7 +29,7 @@ impl Property for C17 {
         "exploration"
     }
     fn rule(&self) -> &'static str {
-        "A scenario = one generated stream (clean or noisy, optionally with touching tokens, occasionally > 8 KiB) x one pipeline x several deliveries of the same bytes, all executed by the real code and compared: family 'delivery' = whole slice vs raw 1-byte SimSource with EINTR vs BufReader(cap in {1,2,3,5,8,64,8192}) over SimSource with seeded chunk limits and EINTR vs one real file; 'files-concat' = partition into 1..4 real files at gaps vs the unpartitioned stream on stdin (any pipeline class), also as chunked files behind the opener seam, with names that are not in sorted order and a directory among the arguments, and with the first file named again at the end; 'files-separate' = partition with at least one cut inside a value, stateless pipeline, vs header + sum of solo runs per file; 'context' = the seven &-selectors checked against the byte offsets the harness knows for the records it generated (stdin with seeded chunking, or 1..4 files), with --only-objects-and-arrays on/off, optionally a --set stage, junk glued to the next value, raw line feeds inside strings, a directory argument whose listing order is read off the rows, and a re-check behind two sorters (constant key + &index descending = the rows in reverse). evaluations = jawk executions. A scenario is non-trivial iff at least two genuinely different deliveries were compared (chunk limits, EINTR, buffer capacity, file partition) or at least one context row was checked; distinct = distinct abstract traces of non-trivial scenarios."
+        "A scenario = one generated stream (clean or noisy, optionally with touching tokens, occasionally > 8 KiB) x one pipeline x several deliveries of the same bytes, all executed by the real code and compared: family 'delivery' = whole slice vs raw 1-byte SimSource with EINTR vs BufReader(cap in {1,2,3,5,8,64,8192}) over SimSource with seeded chunk limits and EINTR vs one real file; 'files-concat' = partition into 1..4 real files at gaps vs the unpartitioned stream on stdin (any pipeline class), also as chunked files behind the opener seam, with names that are not in sorted order and a directory among the arguments, and with the first file named again at the end; 'files-separate' = partition with at least one cut inside a value, stateless pipeline, vs header + sum of solo runs per file; 'context' = the seven &-selectors checked against the byte offsets the harness knows for the records it generated (stdin with seeded chunking, or 1..4 files), with --only-objects-and-arrays on/off, optionally a --set stage, junk glued to the next value, raw line feeds inside strings, a directory argument whose listing order is read off the rows, and a re-check behind two sorters (constant key + &index descending = the rows in reverse). evaluations = jawk executions. A scenario is non-trivial iff at least two genuinely different deliveries were compared (chunk limits, EINTR, buffer capacity, file partition) or at least one context row was checked; distinct = distinct abstract traces of non-trivial scenarios. Round 7: context family with one gap of 65530..66200 blanks or line feeds (columns/lines beyond 16 bits); files behind symbolic links to directories; paths with commas, blanks and multi-byte characters."
     }
     fn assumptions(&self) -> Vec<String> {
         vec![
